@@ -633,3 +633,150 @@ Proof.
     destruct W as [Wl _]. cbn [s_ws s_xs] in Wl.
     rewrite (Qsum_combine_snd xs ws Wl), (Qsum_combine_snd xs0 ws0 Wl0). apply wsum_w_perm. exact P.
 Qed.
+
+(* ====================================================================== *)
+(* weighted Bounds: zero-weight values are ignored, on both code paths       *)
+(* ====================================================================== *)
+Definition nzw (p : Q * Q) : bool := negb (Qeq_bool (snd p) 0).
+(* the values that carry a non-zero weight, in order *)
+Definition used (ps : list (Q * Q)) : list Q := map fst (filter nzw ps).
+
+Lemma used_cons_zero : forall x w t, Qeq_bool w 0 = true -> used ((x, w) :: t) = used t.
+Proof. intros x w t E. unfold used. simpl. unfold nzw at 1. simpl. rewrite E. reflexivity. Qed.
+Lemma used_cons_nz : forall x w t, Qeq_bool w 0 = false -> used ((x, w) :: t) = x :: used t.
+Proof. intros x w t E. unfold used. simpl. unfold nzw at 1. simpl. rewrite E. reflexivity. Qed.
+
+Lemma wb_fold_some : forall ps a,
+  fold_left wbounds_step ps (Some a) = Some (fold_left bounds_step (used ps) a).
+Proof.
+  induction ps as [|[x w] t IH]; intros a; [reflexivity|].
+  cbn [fold_left wbounds_step]. destruct (Qeq_bool w 0) eqn:E.
+  - rewrite (used_cons_zero x w t E). apply IH.
+  - rewrite (used_cons_nz x w t E). cbn [fold_left]. apply IH.
+Qed.
+
+Lemma bounds_step_self : forall x, bounds_step (x, x) x = (x, x).
+Proof. intros x. unfold bounds_step. simpl. destruct (Qltb x x); reflexivity. Qed.
+
+(* the unsorted weighted scan = Bounds of the values with non-zero weight *)
+Lemma wb_fold_none : forall ps, fold_left wbounds_step ps None = bounds (used ps).
+Proof.
+  induction ps as [|[x w] t IH]; [reflexivity|].
+  cbn [fold_left wbounds_step]. destruct (Qeq_bool w 0) eqn:E.
+  - rewrite (used_cons_zero x w t E). apply IH.
+  - rewrite (used_cons_nz x w t E). rewrite wb_fold_some. unfold bounds. cbn [fold_left].
+    rewrite bounds_step_self. reflexivity.
+Qed.
+
+Lemma first_nonzero_used : forall ps, first_nonzero ps = hd_error (used ps).
+Proof.
+  induction ps as [|[x w] t IH]; [reflexivity|].
+  cbn [first_nonzero]. destruct (Qeq_bool w 0) eqn:E.
+  - rewrite (used_cons_zero x w t E). apply IH.
+  - rewrite (used_cons_nz x w t E). reflexivity.
+Qed.
+
+Lemma used_rev : forall ps, used (rev ps) = rev (used ps).
+Proof.
+  intros ps. unfold used. induction ps as [|p t IH]; [reflexivity|].
+  simpl. rewrite filter_app, map_app, IH. simpl. destruct (nzw p); simpl; [reflexivity|apply app_nil_r].
+Qed.
+
+(* WEIGHTED BOUNDS, not marked Sorted: least and greatest value among those with non-zero
+   weight; NaN when there is none *)
+Lemma weighted_bounds_unsorted : forall xs ws, xs <> [] ->
+  sample_bounds (mkSample xs (Some ws) false) = bounds (used (combine xs ws)).
+Proof.
+  intros xs ws H. unfold sample_bounds. cbn [s_xs s_ws s_sorted].
+  destruct xs as [|x0 t]; [congruence|]. apply wb_fold_none.
+Qed.
+
+Definition obounds_eq (a b : option (Q * Q)) : Prop :=
+  match a, b with
+  | None, None => True
+  | Some (p, q), Some (r, s) => p == r /\ q == s
+  | _, _ => False
+  end.
+
+Lemma sorted_filter_map : forall ps : list (Q * Q),
+  StronglySorted Qle (map fst ps) -> StronglySorted Qle (used ps).
+Proof.
+  intros ps. unfold used. induction ps as [|p t IH]; intro S; simpl; [constructor|].
+  simpl in S. inversion S as [|? ? S' F]; subst.
+  destruct (nzw p); [|apply IH; exact S'].
+  simpl. constructor; [apply IH; exact S'|].
+  rewrite Forall_forall in *. intros y Hy. apply F.
+  apply in_map_iff in Hy. destruct Hy as [q [E Hq]]. apply filter_In in Hq.
+  apply in_map_iff. exists q. split; [exact E|apply Hq].
+Qed.
+
+Lemma hd_error_last_rev : forall (l : list Q) d, l <> [] -> hd_error (rev l) = Some (last l d).
+Proof.
+  intros l d H. destruct (rev l) as [|y r] eqn:E.
+  - apply (f_equal (@rev Q)) in E. rewrite rev_involutive in E. simpl in E. congruence.
+  - apply (f_equal (@rev Q)) in E. rewrite rev_involutive in E. simpl in E. subst l.
+    rewrite last_last. reflexivity.
+Qed.
+
+Lemma map_fst_combine : forall (xs ws : list Q), length ws = length xs -> map fst (combine xs ws) = xs.
+Proof.
+  induction xs as [|x t IH]; intros [|w wt] H; simpl in *; try discriminate; try reflexivity.
+  rewrite IH by lia. reflexivity.
+Qed.
+
+(* marking ascending weighted data as Sorted changes nothing: the fast path (first / last
+   non-zero weight) returns the same bounds as the scan *)
+Lemma weighted_bounds_sorted_flag : forall xs ws, xs <> [] -> length ws = length xs -> StronglySorted Qle xs ->
+  obounds_eq (sample_bounds (mkSample xs (Some ws) true)) (sample_bounds (mkSample xs (Some ws) false)).
+Proof.
+  intros xs ws Hx Hl Hs. rewrite (weighted_bounds_unsorted xs ws Hx).
+  assert (SB : sample_bounds (mkSample xs (Some ws) true) =
+               match first_nonzero (combine xs ws), first_nonzero (rev (combine xs ws)) with
+               | Some mn, Some mx => Some (mn, mx) | _, _ => None end).
+  { unfold sample_bounds. cbn [s_xs s_ws s_sorted]. destruct xs; [congruence|reflexivity]. }
+  rewrite SB. rewrite !first_nonzero_used, used_rev.
+  assert (Su : StronglySorted Qle (used (combine xs ws))).
+  { apply sorted_filter_map. rewrite (map_fst_combine xs ws Hl). exact Hs. }
+  destruct (used (combine xs ws)) as [|y r] eqn:Eu; [simpl; exact I|]. rewrite <- Eu in *.
+  assert (Hu : used (combine xs ws) <> []) by (rewrite Eu; discriminate).
+  rewrite (hd_error_last_rev _ 0 Hu). rewrite Eu at 1. cbn [hd_error].
+  destruct (bounds (used (combine xs ws))) as [[mn mx]|] eqn:Eb; [|rewrite Eu in Eb; discriminate].
+  destruct (bounds_ostat _ mn mx Eb) as [E1 E2]. rewrite (Qsort_id _ Su) in E1, E2.
+  rewrite ostat_first in E1. rewrite (ostat_last _ Hu) in E2. simpl.
+  split; [rewrite E1, Eu; reflexivity|symmetry; exact E2].
+Qed.
+
+(* non-negative integer weights: Bounds of the weighted sample = Bounds of the repeated sample *)
+Lemma used_nat_pairs_in : forall xs ws x, length ws = length xs ->
+  (In x (used (nat_pairs xs ws)) <-> In x (repeat_by_weights xs ws)).
+Proof.
+  unfold used, nat_pairs. induction xs as [|y t IH]; intros [|w wt] x H; simpl in *; try discriminate; try tauto.
+  assert (Ez : Qeq_bool (Qofnat w) 0 = true <-> w = 0%nat).
+  { rewrite Qeq_bool_iff. unfold Qofnat. change 0 with (inject_Z 0). rewrite inject_Z_injective. lia. }
+  unfold nzw at 1. cbn [snd]. rewrite in_app_iff.
+  destruct (Qeq_bool (Qofnat w) 0) eqn:E; cbn [negb].
+  - assert (w = 0%nat) by (apply Ez; reflexivity). subst w. simpl. rewrite IH by lia. tauto.
+  - assert (w <> 0%nat) by (intro Hw; apply Ez in Hw; congruence).
+    simpl. rewrite IH by lia. split.
+    + intros [<-|Hx]; [left; destruct w; [congruence|left; reflexivity]|right; exact Hx].
+    + intros [Hx|Hx]; [left; symmetry; eapply repeat_spec; exact Hx|right; exact Hx].
+Qed.
+
+Lemma bounds_same_elements : forall a b, (forall x, In x a <-> In x b) -> obounds_eq (bounds a) (bounds b).
+Proof.
+  intros a b H.
+  destruct (bounds a) as [[mn mx]|] eqn:Ea; destruct (bounds b) as [[mn' mx']|] eqn:Eb; simpl; auto.
+  - destruct (bounds_spec a mn mx Ea) as [[I1 L1] [I2 L2]].
+    destruct (bounds_spec b mn' mx' Eb) as [[J1 K1] [J2 K2]].
+    split; apply Qle_antisym.
+    + apply L1, H, J1. + apply K1, H, I1. + apply K2, H, I2. + apply L2, H, J2.
+  - destruct a as [|x t]; [discriminate|]. destruct b; [|discriminate]. destruct (proj1 (H x)). left; reflexivity.
+  - destruct b as [|x t]; [discriminate|]. destruct a; [|discriminate]. destruct (proj2 (H x)). left; reflexivity.
+Qed.
+
+Lemma int_weights_bounds_eq_repeat : forall xs ws, xs <> [] -> length ws = length xs ->
+  obounds_eq (sample_bounds (mkSample xs (Some (map Qofnat ws)) false)) (bounds (repeat_by_weights xs ws)).
+Proof.
+  intros xs ws Hx Hl. rewrite (weighted_bounds_unsorted xs _ Hx).
+  apply bounds_same_elements. intro x. apply used_nat_pairs_in. exact Hl.
+Qed.
